@@ -261,7 +261,7 @@ theorem map_proj_of_map_eq {α β γ} {f : α → β} (g : β → γ) {l l' : Li
   exact this
 
 /-- fields of an invocation the call tables' invariant looks at -/
-def Invk.shapeC (v : Invk) : ReqId × ReqId × SessKey := (v.id, v.callId, v.callee)
+def Invk.shapeC (v : Invk) : ReqId × ReqId × SessKey × Nat × Bool := (v.id, v.callId, v.callee, v.regId, v.fwdTimeout)
 
 theorem CallInv.congr {d d' : Dealer} (h : CallInv d) (hc : d'.calls = d.calls) (hb : d'.byCall = d.byCall)
     (hi : d'.invs.map Invk.shapeC = d.invs.map Invk.shapeC) : CallInv d' := by
@@ -283,7 +283,7 @@ theorem CallInv.congr {d d' : Dealer} (h : CallInv d) (hc : d'.calls = d.calls) 
   · intro v hv
     obtain ⟨v', hv', he⟩ := exists_of_map_eq hi hv
     simp only [Invk.shapeC, Prod.mk.injEq] at he
-    rw [← he.2.2, ← he.1]; exact h.callee v' hv'
+    rw [← he.2.2.1, ← he.1]; exact h.callee v' hv'
 
 /-- fields of an invocation the generator/timer invariant looks at -/
 def Invk.shapeA (v : Invk) : ReqId × ReqId × Option Nat := (v.id, v.callId, v.timer)
